@@ -72,6 +72,79 @@ func c18(c *Ctx) {
 		nitems += c18Getter(c, fn)
 	}
 	c18Serialised(c, getters)
+	// an identity is loaded for the storage (namespace) the getter was called on; remembering it in a package-level variable
+	// shares one object between every service of the process (and lets a configuration decoder or another service overwrite
+	// it in place), so which identity a service presents depends on which other services were built in that run
+	for _, fn := range getters {
+		bad := ""
+		for _, b := range fn.Blocks {
+			for _, in := range b.Instrs {
+				st, ok := in.(*ssa.Store)
+				if !ok {
+					continue
+				}
+				var g *ssa.Global
+				switch a := st.Addr.(type) {
+				case *ssa.Global:
+					g = a
+				case *ssa.FieldAddr:
+					g, _ = a.X.(*ssa.Global)
+				case *ssa.IndexAddr:
+					g, _ = a.X.(*ssa.Global)
+				}
+				if g != nil {
+					bad = p.InstrPos(st) + " stores into package variable " + g.Name()
+				}
+			}
+			for _, in := range b.Instrs {
+				if mu, ok := in.(*ssa.MapUpdate); ok {
+					if ld, ok := mu.Map.(*ssa.UnOp); ok {
+						if g, ok := ld.X.(*ssa.Global); ok {
+							bad = p.InstrPos(mu) + " stores into package-level map " + g.Name()
+						}
+					}
+				}
+			}
+		}
+		// … nor do its direct callers park its result there
+		for _, g := range p.Funcs() {
+			if g == fn || PkgOf(g) != PkgOf(fn) {
+				continue
+			}
+			for _, call := range Calls(g) {
+				cv, ok := call.(*ssa.Call)
+				if !ok || cv.Call.StaticCallee() != fn {
+					continue
+				}
+				for _, b := range g.Blocks {
+					for _, in := range b.Instrs {
+						st, ok := in.(*ssa.Store)
+						if !ok {
+							continue
+						}
+						gl, isG := st.Addr.(*ssa.Global)
+						if !isG {
+							if fa, ok := st.Addr.(*ssa.FieldAddr); ok {
+								gl, isG = fa.X.(*ssa.Global)
+							}
+						}
+						if !isG {
+							continue
+						}
+						for _, lf := range leaves(st.Val) {
+							if lf == ssa.Value(cv) {
+								bad = p.InstrPos(st) + " " + shortFn(g) + " stores the getter's result into package variable " + gl.Name()
+							}
+							if ex, ok := lf.(*ssa.Extract); ok && ex.Tuple == ssa.Value(cv) {
+								bad = p.InstrPos(st) + " " + shortFn(g) + " stores the getter's result into package variable " + gl.Name()
+							}
+						}
+					}
+				}
+			}
+		}
+		c.Check(bad == "", "identity-getter", shortFn(fn)+" keeps no process-wide copy", p.Pos(fn.Pos()), "the identity is not remembered in package-level state", "the identity getter remembers what it loaded in package-level state ("+bad+"): every service of the process then shares one object, and what a service presents follows the set and configuration of the other services started with it instead of its own persisted item")
+	}
 	c.Check(len(getters) >= 5, "identity-getter", "identity getters found", "-", fmt.Sprintf("%d getters, %d items", len(getters), nitems), fmt.Sprintf("expected the five identity getters (ssh, ftp, smtp, ldap, agent), found %d", len(getters)))
 	c.Check(nitems >= 8, "identity-getter", "identity items found", "-", "", fmt.Sprintf("expected at least 8 persisted identity items, found %d", nitems))
 	for _, want := range []string{"services/ssh", "services/ftp", "services/smtp", "services/ldap", "listener/agent"} {
